@@ -96,6 +96,32 @@ def gen_lg_case(rng, idx, rkind=None, noise=None, dims=None, cplx=False):
             "s0": [int(x) for x in s0], "sinv": [str(x) for x in sinv]}
 
 
+def gen_identity_case(rng, idx):
+    """Pure de-noising: identity response (handed to the classic API as ScalingOperator(domain, 1.)),
+    diagonal noise as DiagonalOperator, unit prior as ScalingOperator: the operator-simplification paths
+    (SandwichOperator.make short-cut, SumOperator.simplify -> DiagonalOperator._add) are taken."""
+    k = int(rng.integers(2, 5))
+    case = gen_lg_case(rng, idx, rkind="full", noise="diag", dims=(k, k))
+    case["R"] = [[1 if i == j else 0 for j in range(k)] for i in range(k)]
+    case["rkind"], case["rank"], case["scaling_response"] = "identity_scaling", k, True
+    case["sinv"] = ["1"] * k
+    return case
+
+
+def gen_illcond_cg_case(rng, idx, n=30):
+    """30 distinct, moderately spread curvature eigenvalues 1 + 16 (k+1)^2: the classic ConjugateGradient
+    needs more than its reset interval of 20 iterations (entries are multiples of 1/8 => exact)."""
+    case = gen_illcond_case(rng, idx, n=n)
+    perm = rng.permutation(n)
+    sgn = rng.choice([-1, 1], size=n)
+    R = [[Fr(0)] * n for _ in range(n)]
+    for i in range(n):
+        R[i][int(perm[i])] = Fr(i + 1, 8) * int(sgn[i])
+    case["R"] = [[str(x) for x in r] for r in R]
+    case["rkind"] = "illcond_cg"
+    return case
+
+
 def gen_illcond_case(rng, idx, n=12):
     """Ill-conditioned linear model: R = signed permutation of diag(4, 2, 1, 1/2, ...), sigma = 1/32,
     so that R^T N^-1 R + 1 has eigenvalues spread over seven decades (all entries dyadic => exact)."""
@@ -318,7 +344,11 @@ def classic_ops(lg, nonlinear=False):
     import nifty.cl as ift
     dom = ift.UnstructuredDomain(lg.n)
     tgt = ift.UnstructuredDomain(lg.m_impl)
-    Rop = dense_op(dom, tgt, lg.impl("R"))
+    if lg.case.get("scaling_response"):
+        tgt = dom
+        Rop = ift.ScalingOperator(dom, 1.)
+    else:
+        Rop = dense_op(dom, tgt, lg.impl("R"))
     if lg.is_complex:     # real diagonal noise, complex sampling dtype (real and imaginary part have variance N each)
         Ninv = ift.DiagonalOperator(ift.makeField(tgt, np.diag(lg.impl("Ninv")).copy()), sampling_dtype=np.complex128)
         Wop = None
@@ -334,6 +364,8 @@ def classic_ops(lg, nonlinear=False):
         Wop = dense_op(tgt, tgt, lg.f("W"))
         Ninv = ift.SandwichOperator.make(Wop, None, np.float64)      # W^T W, can draw samples
         Nop = ift.DiagonalOperator(ift.makeField(tgt, np.diag(lg.f("N")).copy()), sampling_dtype=np.float64)
+    if lg.case.get("scaling_response"):      # lazily inverted DiagonalOperator as inverse covariance
+        Ninv = Nop.inverse
     d = ift.makeField(tgt, lg.impl("d"))
     if nonlinear:
         Qop = dense_op(dom, tgt, lg.impl("Q"))
